@@ -194,6 +194,21 @@ func (p *Prog) Func(name string) *ssa.Function {
 			return f
 		}
 	}
+	// a method anchored with a value receiver that now has a pointer receiver (or the reverse) is the same method
+	alt := ""
+	switch {
+	case strings.HasPrefix(name, "(*"):
+		alt = "(" + name[2:]
+	case strings.HasPrefix(name, "("):
+		alt = "(*" + name[1:]
+	}
+	if alt != "" {
+		for _, f := range p.ModFuncs {
+			if FuncName(f) == alt {
+				return f
+			}
+		}
+	}
 	return nil
 }
 
